@@ -24,6 +24,51 @@ PARAM_ROLES = {
 }
 
 
+def _entails_true(expr, truth, name):
+    """Does `expr evaluated to truth` force the plain name to be truthy?"""
+    if isinstance(expr, ast.Name):
+        return truth and expr.id == name
+    if isinstance(expr, ast.UnaryOp) and isinstance(expr.op, ast.Not):
+        return _entails_true(expr.operand, not truth, name)
+    if isinstance(expr, ast.BoolOp):
+        if isinstance(expr.op, ast.And) and truth:
+            return any(_entails_true(v, True, name) for v in expr.values)
+        if isinstance(expr.op, ast.Or) and not truth:
+            return any(_entails_true(v, False, name) for v in expr.values)
+    return False
+
+
+def _params_true_on_all_paths(helper, stmt, params):
+    """Parameters that are known truthy (from branch facts) on every path that reaches `stmt`."""
+    from ..engine import pyflow
+    reached = []
+
+    def tr(n, state):
+        if n is stmt or (isinstance(stmt, ast.If) and n is stmt.test):
+            reached.append(state)
+        return state
+    try:
+        pyflow.Flow(tr).run(helper)
+    except pyflow.TooManyStates:
+        return set()
+    if not reached:
+        return set()
+    out = None
+    for st in reached:
+        known = set()
+        for f in st:
+            if isinstance(f, tuple) and f and f[0] == '?':
+                try:
+                    e = ast.parse(f[1], mode='eval').body
+                except SyntaxError:
+                    continue
+                for p in params:
+                    if _entails_true(e, f[2], p):
+                        known.add(p)
+        out = known if out is None else (out & known)
+    return out or set()
+
+
 def none_mapping_flag(helper):
     """Analyse an argument-injection helper: does it map a None argument to the default, and which parameter
     (if any) switches that off?  -> (maps_none: bool, flag parameter name or None)"""
@@ -44,6 +89,9 @@ def none_mapping_flag(helper):
                         for v in x.values:
                             if isinstance(v, ast.Name) and v.id in params:
                                 cand.add(v.id)
+                # ... or tested earlier on every path that reaches this statement (`if not flag: return` before it,
+                # an enclosing `if flag:`): path facts of the structured dataflow
+                cand |= _params_true_on_all_paths(helper, n, params)
                 guard_names = cand
         if guard_names is not None:
             flags = guard_names if flags is None else (flags & guard_names)
